@@ -136,7 +136,7 @@ fn registry(id: &str) -> Option<PropDef> {
         },
         "C18" => PropDef {
             level: "exploration",
-            subs: vec![enumerated::<c18::SizeGrid>(), random::<c18::SizeRandom>(), random::<c18::SizeOfRead>()],
+            subs: vec![enumerated::<c18::SizeGrid>(), random::<c18::SizeRandom>(), random::<c18::SizeOfRead>(), random::<c18::SizeFile>()],
             assumptions: vec!["the dense grid is complete within its stated bounds; larger shapes are sampled"],
         },
         "C19" => PropDef {
